@@ -28,6 +28,7 @@ type srcRenderer struct {
 	fn        string // name of the function being rendered (package-level helper names derive from it)
 	box       bool   // element type *rt.Box instead of int
 	plainVars bool   // co packages: the package-level function variable of odd-numbered programs is declared in plain.go
+	boxM      bool   // ... element type rt.BoxM (a map literal whose KEY is the computed expression)
 	boxV      bool   // ... element type rt.BoxV (a struct VALUE: the yielded expression is a composite literal)
 	gg        bool   // element type Iter[int] (a generator of generators): set per program when it uses ygen
 }
@@ -177,6 +178,9 @@ func (sr *srcRenderer) vexpr(v any) string {
 	case "pv":
 		return "pwrap(" + str(m["n"]) + ")"
 	case "fresh":
+		if sr.boxM {
+			return "rt.BoxM{" + sr.vexpr(m["e"]) + ": 1}"
+		}
 		if sr.boxV {
 			return "rt.BoxV{V: " + sr.vexpr(m["e"]) + "}"
 		}
@@ -731,6 +735,9 @@ func (sr *srcRenderer) genFunc(name string, prog []any, trailing string) string 
 		elem, natIter, pull = "*rt.Box", "*rt.NIterT[*rt.Box]", "rt.PullT(func(yield func(*rt.Box) bool) {"
 		if sr.boxV {
 			elem, natIter, pull = "rt.BoxV", "*rt.NIterT[rt.BoxV]", "rt.PullT(func(yield func(rt.BoxV) bool) {"
+		}
+		if sr.boxM {
+			elem, natIter, pull = "rt.BoxM", "*rt.NIterT[rt.BoxM]", "rt.PullT(func(yield func(rt.BoxM) bool) {"
 		}
 	}
 	prolog := ""
